@@ -144,8 +144,9 @@ def runFrom {σ : Type} (cfg : Cfg) : Nat → List (Stage σ) → Acc σ → Run
       let r := runFrom cfg (i + 1) rest o.acc
       ⟨r.acc, o.res.toList ++ r.results, o.evs ++ r.log⟩
 
+/-- the running gain starts at 1, held at the maximum like every later value (`min(1.0, self.max_amplification)`) -/
 def run {σ : Type} (cfg : Cfg) (stages : List (Stage σ)) (x : σ) : Run σ :=
-  runFrom cfg 0 stages ⟨x, 1, none⟩
+  runFrom cfg 0 stages ⟨x, clamp cfg 1, none⟩
 
 def completedCount {σ : Type} (rs : List (StageRes σ)) : Nat :=
   (rs.filter (fun r => r.status = .completed)).length
